@@ -205,7 +205,10 @@ def check(case):
                 st_ = pr.steps
                 read_failed = any(x.get("rc") != 0 for x, ln in zip(st_, lines) if ln.startswith("read "))
                 if read_failed or st_[-3]["rc"] != 0 or st_[-2].get("msa") is None:
-                    if how in ("twofiles", "append") and gen.expected_kind([x for x in seqs[:cut] if x]) != gen.expected_kind([x for x in seqs[cut:] if x]):
+                    k1, k2 = gen.expected_kind([x for x in seqs[:cut] if x]), gen.expected_kind([x for x in seqs[cut:] if x])
+                    if how in ("twofiles", "append") and (k1 is None or k2 is None or k1 != k2):
+                        # each file is classified on its own and kalign refuses to merge files it takes for different kinds:
+                        # only parts that each satisfy the same C13 premise are certain to be accepted
                         return engine.discard("the two parts are not of one kind on their own (kalign refuses to merge them)")
                     return engine.violation({"what": "the final run of the history '%s' failed on a valid input" % how,
                                              "rcs": [x.get("rc") for x in st_]}, kind="status")
